@@ -26,35 +26,35 @@ Proof.
   all: intuition (try congruence; try discriminate; try lia).
 Qed.
 
-(** Close has succeeded for the Subscribe call in progress: it found the
-    transport installed ([c_ok]) and is past its critical section, or has
-    returned nil since that call was made. *)
-Definition close_succeeded (s : st) : Prop :=
-  c_done s = true \/ (c_ok s = true /\ c_after_base (c_pc s) = true).
+(** Close has succeeded for the Subscribe call in progress: a Close call made
+    after that call re-opened the client found a transport installed ([c_ok])
+    and is past its critical section, or has returned nil. *)
+Definition close_succeeded (s : st) : Prop := close_counts s.
 
 Definition inv7 (s : st) : Prop :=
-  c_wait s = false /\
-  (close_succeeded s -> s_curcl s = true \/ match s_pc s with SRet _ | SFin => True | _ => False end).
+  close_counts s -> s_curcl s = true \/ streaming (s_pc s) = false.
 
 Lemma inv7_step sc s l s1 :
   inv1 false s -> inv6 s -> inv7 s -> In (l, s1) (step false sc s) -> inv7 s1.
 Proof.
   intros I1 I6 I H.
   pose proof (proj1 (proj2 (proj2 (proj2 (proj2 I1)))) eq_refl) as [HR [HL _]]. clear I1.
-  dst s; unfold inv6, inv7, close_succeeded in *; cbn in *;
-  split_step H; crunch H; cbn in *; splitifs; rewrite ?Nat.eqb_refl in *;
+  pose proof (proj1 (proj2 (proj2 I6))) as K.
+  dst s; unfold inv6, inv7, close_counts in *; cbn in *;
+  split_step H; crunch H; cbn in *; try discriminate HR; try (exfalso; apply HL; reflexivity);
+  splitifs; rewrite ?Nat.eqb_refl in *;
   try solve [intuition (try congruence; try discriminate)].
-  all: try (exfalso; apply HL; reflexivity).
   all: repeat match goal with E : (_ =? _)%nat = false |- _ => apply Nat.eqb_neq in E end.
-  all: destruct I6 as [I6a [I6b _]]; destruct I as [Ia Ib]; split; [exact Ia|]; intros _.
-  all: destruct (I6b eq_refl) as [Z|Z]; [|subst; right; exact Logic.I].
-  all: exfalso; subst; destruct I6a as [Z1 _]; lia.
+  all: try (destruct cd0; destruct cok0; destruct cw0; cbn in *;
+            intuition (try congruence; try discriminate); fail).
+  all: try (destruct spc0; cbn in *; intuition (try congruence; try discriminate); fail).
+  all: intuition (try congruence; try discriminate).
 Qed.
 
 Lemma base_invs sc s : reach false sc s -> inv1 false s /\ inv2 false s /\ inv6 s /\ inv7 s.
 Proof.
   revert s. apply reach_ind'.
-  - unfold inv1, inv2, inv6, inv7, close_succeeded, init, cancelled; cbn.
+  - unfold inv1, inv2, inv6, inv7, close_counts, init, cancelled; cbn.
     intuition (try congruence; try discriminate).
   - intros s l s1 [I1 [I2 [I6 I7]]] H.
     split; [eapply inv1_step; eauto|]. split; [eapply inv2_step; eauto|].
@@ -65,23 +65,26 @@ Lemma base_progress sc s :
   inv1 false s -> inv2 false s -> inv6 s -> inv7 s -> close_succeeded s ->
   nc (sstep false sc s ++ cstep false s) = [] -> s_pc s = SFin /\ c_pc s = CFin.
 Proof.
-  intros [_ [_ [_ [I1 _]]]] I2 I6 [I7a I7] C H. specialize (I7 C).
+  intros [_ [_ [_ [I1 [I1b _]]]]] I2 I6 I7 C H. specialize (I7 C).
+  destruct (I1b eq_refl) as [HR [HL _]].
+  pose proof (proj1 (proj2 (proj2 I6)) C) as [K1 [K2 K3]].
   apply nc_app_nil in H. destruct H as [Hs Hc].
-  dst s; unfold inv2, inv6, close_succeeded, sstep, cstep, end_attempt, do_cancel, cancelled in *;
+  dst s; unfold inv2, inv6, close_succeeded, close_counts, sstep, cstep, end_attempt, do_cancel, cancelled in *;
   cbn in *; subst.
   destruct cpc0; cbn in Hc; try discriminate; stuck_cases Hc;
   destruct spc0; cbn in Hs; try discriminate; stuck_cases Hs;
-  cbn in *; intuition (try congruence; try discriminate); subst; cbn in *;
+  cbn in *; rewrite ?andb_false_r in *; try discriminate;
+  intuition (try congruence; try discriminate); subst; cbn in *;
   rewrite ?orb_true_r in *; try discriminate.
 Qed.
 
 Lemma close_succeeded_step sc s l s1 :
   inv6 s -> close_succeeded s -> In (l, s1) (step false sc s) -> is_call l = false -> close_succeeded s1.
 Proof.
-  intros I6 C H Hn. pose proof (proj2 (proj2 (proj2 (proj2 (proj2 (proj2 I6)))))) as K. clear I6.
-  dst s; unfold close_succeeded in *; cbn in *.
+  intros I6 C H Hn. dst s; unfold close_succeeded, close_counts in *; cbn in *.
   split_step H; crunch H; cbn in *; splitifs; try discriminate; try tauto;
-  destruct C as [C|[C1 C2]]; subst; cbn in *; try discriminate; auto.
+  destruct C as [C|[C1 [C2 C3]]]; subst; cbn in *; try discriminate; auto;
+  try (left; rewrite ?orb_true_r; reflexivity).
 Qed.
 
 (** A bare client, for any history of earlier (sequential) calls: as long as
@@ -120,7 +123,6 @@ Proof.
   intros a b E. apply internal_ev_dec_bl. exact E.
 Qed.
 
-(** [step] is the code minus the DEFECT C18_1 transition; for a ReconnectClient
-    there is no difference. *)
-Lemma step_now_rc sc s : step_now true sc s = step true sc s.
-Proof. unfold step_now, defect_steps. rewrite orb_true_r. apply app_nil_r. Qed.
+(** With the patch for DEFECT C18_1 in /repo the model is the code: no extra transition. *)
+Lemma step_now_eq rc sc s : step_now rc sc s = step rc sc s.
+Proof. unfold step_now, defect_steps. cbn. apply app_nil_r. Qed.
